@@ -50,3 +50,17 @@ Example C02_nonvacuous :
   length (units_within 4 us) = 1%nat /\
   category [66; 101; 71; 105; 78] = 1 /\ category [114; 111; 108; 108; 66; 65; 67; 75; 32; 116; 111] = 3.
 Proof. repeat split; vm_compute; reflexivity. Qed.
+
+(* ---------------------------------------------------------------------------------------------------------------
+   Source pins.  The model functions used above are a hand-written reading of these Go functions (they have closures,
+   channels, interfaces or maps, which the translator gotrans does not accept).  gosync regenerates their normalised
+   text (logging calls and comments removed) into gen/Source.v on every run; it must equal the committed snapshot
+   Spec/SourceSnapshot.v the models were written and validated against.  When one of them is edited the Example
+   naming it fails, the check runs the thorough harness in search of a failing input, and reports the property as no
+   longer shown to hold (with the input, or no-failing-input-found). *)
+From GB Require Proofs.SourcePins Spec.SourceSnapshot.
+From GBGen Require Source.
+Example C02_pin_parseEvents : Source.src_parseEvents = SourceSnapshot.src_parseEvents.
+Proof. exact SourcePins.pin_parseEvents. Qed.
+Example C02_pin_GetStatementCategory : Source.src_GetStatementCategory = SourceSnapshot.src_GetStatementCategory.
+Proof. exact SourcePins.pin_GetStatementCategory. Qed.
